@@ -413,6 +413,11 @@ fn truncate(s: String, n: usize) -> String {
 
 /// Drive `prop` with `cases` generated cases split over the context's threads.
 pub fn run_pbt<P: Prop>(ctx: &Ctx, prop: &P, cases: u64) {
+    // KVH_SCALE multiplies every case count (experiments / deeper ad-hoc runs)
+    let cases = match std::env::var("KVH_SCALE").ok().and_then(|s| s.parse::<f64>().ok()) {
+        Some(f) if f > 0.0 => ((cases as f64) * f).ceil() as u64,
+        _ => cases,
+    };
     let shape = prop.shape(ctx.tier);
     let shards = ctx.threads.max(1).min(cases.max(1) as usize);
     let stop = AtomicBool::new(false);
@@ -429,6 +434,9 @@ pub fn run_pbt<P: Prop>(ctx: &Ctx, prop: &P, cases: u64) {
             scope.spawn(move || {
                 let stats = RefCell::new(PartStats::default());
                 let failed = std::cell::Cell::new(false);
+                // every failing execution seen (also during shrinking), by case hash: the shrunk
+                // case's failure is reported from here even if the engine is not deterministic
+                let seen_failures: RefCell<std::collections::HashMap<u64, Failure>> = RefCell::new(Default::default());
                 let cfg = Config {
                     cases: n as u32,
                     failure_persistence: None,
@@ -473,7 +481,9 @@ pub fn run_pbt<P: Prop>(ctx: &Ctx, prop: &P, cases: u64) {
                                 }
                                 failed.set(true);
                                 stop.store(true, Ordering::Relaxed);
-                                Err(TestCaseError::fail(f.msg))
+                                let msg = f.msg.clone();
+                                seen_failures.borrow_mut().insert(case_hash(&case), f);
+                                Err(TestCaseError::fail(msg))
                             }
                         }
                     }
@@ -485,15 +495,23 @@ pub fn run_pbt<P: Prop>(ctx: &Ctx, prop: &P, cases: u64) {
                             let case = prop.decode(&raw, ctx.tier);
                             // re-execute the shrunk case to capture the structured failure
                             let mut last: Option<Failure> = None;
-                            for _ in 0..3 {
+                            let mut reproduced = 0;
+                            for _ in 0..5 {
                                 let env = ctx.env(true);
-                                match run_guarded(prop, &case, &env) {
-                                    Err(f) if !ctx.is_known(&f.sig) => {
+                                if let Err(f) = run_guarded(prop, &case, &env) {
+                                    if !ctx.is_known(&f.sig) {
+                                        reproduced += 1;
                                         last = Some(f);
-                                        break;
                                     }
-                                    _ => {}
                                 }
+                            }
+                            if last.is_none() {
+                                // not reproduced now (engine-side nondeterminism, e.g. hash-map
+                                // iteration order among tied distances): report what was observed
+                                last = seen_failures.borrow_mut().remove(&case_hash(&case));
+                            }
+                            if let Some(f) = last.as_mut() {
+                                f.detail = json!({"detail": f.detail.clone(), "reproduced_in_5_reexecutions": reproduced});
                             }
                             match last {
                                 Some(f) => ctx.report_violation(prop.part(), &case, &f),
